@@ -1,10 +1,28 @@
 /- The `oracle` executable: one request per line on stdin, one answer per line on stdout. -/
 import BtcVerif.Oracle.Wire
+import BtcVerif.Oracle.DER
+import BtcVerif.Oracle.Script
+import BtcVerif.Oracle.Codec
+import BtcVerif.Oracle.Address
+import BtcVerif.Oracle.Keys
+import BtcVerif.Oracle.Hash
+import BtcVerif.Oracle.Bip39
+import BtcVerif.Oracle.Ecc
+import BtcVerif.Oracle.Bip32
+import BtcVerif.Oracle.Taproot
+import BtcVerif.Oracle.Utxo
+import BtcVerif.Oracle.SigHash
+import BtcVerif.Oracle.Stream
+import BtcVerif.Oracle.Parsers
 
 open BtcVerif.Oracle
 
+def handlers : List (String → List String → Option String) :=
+  [wireOp, opDER, opScript, opCodec, opAddress, opKeys, opHash, opBip39, opEcc, opBip32, opTaproot,
+   opUtxo, opSigHash, opStream, opParsers]
+
 def dispatch (op : String) (args : List String) : String :=
-  match wireOp op args with
+  match handlers.findSome? (fun h => h op args) with
   | some r => r
   | none => "bad-op"
 
